@@ -434,7 +434,7 @@ func c02Overlap(t *testing.T, raceJob bool) {
 		Retry  bool              `json:"retry,omitempty"`
 	}
 	var cases []ovCase
-	ids := append([]string{"unil"}, quicworld.QUICIDNames...)
+	ids := append([]string{"unil", "plain"}, quicworld.QUICIDNames...) // "plain": the ordinary Transport, as the reference the spec-less UTransport has to match
 	drop := simworld.Action{Kind: "drop"}
 	for rep := 0; rep < l.Pick(1, 6); rep++ {
 		for _, id := range ids {
@@ -451,7 +451,7 @@ func c02Overlap(t *testing.T, raceJob bool) {
 	// concurrently in one process)
 	for rep := 0; rep < l.Pick(2, 10); rep++ {
 		for _, id := range ids {
-			if id != "unil" {
+			if id != "unil" && id != "plain" {
 				// Simultaneous dials of a spec-driven client share the spec's uTLS extension objects (server
 				// name, ALPS, padding ... are filled in and serialised per connection): they interfere with each
 				// other.  The property speaks of successive dials; see DESIGN.md F.7.
@@ -476,7 +476,9 @@ func c02Overlap(t *testing.T, raceJob bool) {
 			opt := quicworld.Options{Schedule: cs.Sched, RTT: 10 * time.Millisecond, ClientKind: "unil",
 				ServerConf: &quic.Config{MaxIdleTimeout: 60 * time.Second, HandshakeIdleTimeout: 20 * time.Second},
 				ClientConf: &quic.Config{MaxIdleTimeout: 60 * time.Second, HandshakeIdleTimeout: 20 * time.Second, KeepAlivePeriod: 3 * time.Second}}
-			if cs.QUICID != "unil" {
+			if cs.QUICID == "plain" {
+				opt.ClientKind = "plain"
+			} else if cs.QUICID != "unil" {
 				spec, err := quic.QUICID2Spec(quicworld.QUICIDs[cs.QUICID])
 				if err != nil {
 					c.Violation("C02|spec|QUICID2Spec-error|"+cs.QUICID, err.Error(), nil)
